@@ -156,7 +156,7 @@ def shard_exprs(m, items, inputs=()):
 
 
 def shard_cuts(m, items, inputs=()):
-    for name, exp, extra, _a, _b in items:
+    for name, exp, extra, _a, _b, _c in items:
         g = gs.Grammar(rules=[gs.Rule('start', exp)] + list(extra))
         model = impl.compile_text(gs.render_grammar(g))
         check_model(m, '; '.join(gs.render_rule(r) for r in g.rules), model, inputs)
